@@ -160,7 +160,8 @@ LProg(p, ly) ==
       H == [i \in DOMAIN p.hs |-> LHandler(p.hs[i], ly)]
       M == IF Len(p.main) = 0 THEN <<>> ELSE << LBlock(p.main, 0, ly) >>
       secs == IF p.fl THEN M \o F \o H ELSE F \o M \o H
-  IN JoinP(secs, B)
+  \* (a program record with the field nb is rendered WITHOUT the separating empty lines: the formatter has to insert them)
+  IN IF "nb" \in DOMAIN p THEN Flat(secs) ELSE JoinP(secs, B)
 
 \* lines to text: every line is ended by a newline (with a trailing blank in the wide layout)
 JoinLines(ls, ly) == Flat([i \in DOMAIN ls |-> ls[i] \o (IF Len(ls[i]) = 0 THEN <<"\n">> ELSE Eol(ly))])
